@@ -6,7 +6,8 @@
 #[macro_use] #[path = "../../prelude/macros.rs"] mod pmacros;
 pub type BlockNumber = u64; pub type TxIndex = u32; pub type OutputIndex = u32; pub type CellIndex = u32;
 pub const CAP: usize = 2;   // txs per block, inputs/outputs per tx
-pub const OPS: usize = 28;
+#[cfg(not(fb_small))] pub const OPS: usize = 28;
+#[cfg(fb_small)] pub const OPS: usize = 14;
 
 pub trait Unpack<T> { fn unpack(&self) -> T; }
 #[derive(Clone, Copy, PartialEq, Eq, Default, Debug)] pub struct Byte32(pub u8);
@@ -108,7 +109,7 @@ mod harness {
     unsafe fn has(put: bool, k: MKey) -> bool { let mut i = 0; while i < COMMITTED.n { if COMMITTED.ops[i].put == put && COMMITTED.ops[i].k == k { return true; } i += 1; } false }
     unsafe fn has_val(k: MKey, v: MVal) -> bool { let mut i = 0; while i < COMMITTED.n { if COMMITTED.ops[i].put && COMMITTED.ops[i].k == k && COMMITTED.ops[i].v == v { return true; } i += 1; } false }
     unsafe fn count_cell_ops(put: bool) -> usize { let mut c = 0; let mut i = 0; while i < COMMITTED.n { if COMMITTED.ops[i].put == put { if let MKey::Cell(..) = COMMITTED.ops[i].k { c += 1; } } i += 1; } c }
-    fn filter_block_step<const WITH_TYPE: bool>() {
+    fn filter_block_step<const WITH_TYPE: bool, const NTX: usize>() {
         let bn: u64 = kani::any();
         let gen_bn: u64 = kani::any(); let gen_ti: u32 = kani::any();
         kani::assume(gen_bn < bn);
@@ -119,7 +120,7 @@ mod harness {
         };
         let t0 = any_tx(20, 1, WITH_TYPE);
         let t1 = any_tx(21, 1, WITH_TYPE);
-        let ntx: usize = 2;
+        let ntx: usize = NTX;
         let mut txs = SVec::default(); txs.n = ntx; txs.a[0] = t0; txs.a[1] = t1;
         let block = Block { header: Header { raw: RawHeader { number: bn } }, hash: Byte32(7), txs };
         st.filter_block(block);
@@ -154,9 +155,10 @@ mod harness {
             assert!(has(true, MKey::BlockNumber(bn)) == (expect_puts + expect_dels > 0) && has(true, MKey::BlockHash(7)) == (expect_puts + expect_dels > 0), "SPEC index: header rows written iff the block touches a registered script");
             // the cell live-row value is the creating transaction hash
             let mut i = 0; while i < COMMITTED.n { if COMMITTED.ops[i].put { if let MKey::Cell(_, _, n, ti, _) = COMMITTED.ops[i].k { assert!(n == bn && (ti as usize) < ntx && COMMITTED.ops[i].v == MVal::Hash(txs.a[ti as usize].hash.0), "SPEC index: a live-cell row does not point at its creating transaction"); } } i += 1; }
-            kani::cover!(expect_dels == 2 && expect_puts >= 1, "two spends and a new cell"); kani::cover!(expect_dels >= 1 && txs.a[1].raw.inputs.a[0].prev.tx_hash == Byte32(20), "a same-block spend");
+            if NTX == 2 { kani::cover!(expect_dels == 2 && expect_puts >= 1, "two spends and a new cell"); kani::cover!(expect_dels >= 1 && txs.a[1].raw.inputs.a[0].prev.tx_hash == Byte32(20), "a same-block spend"); } else { kani::cover!(expect_dels == 2 && expect_puts >= 1, "a spend of a lock+type cell and a new cell"); kani::cover!(expect_dels == 0 && expect_puts == 0, "untouched block"); }
         }
     }
-    #[kani::proof] #[kani::unwind(30)] fn filter_block_lock_only() { filter_block_step::<false>(); }
-    #[kani::proof] #[kani::unwind(30)] fn filter_block_lock_and_type() { filter_block_step::<true>(); }
+    #[cfg(fb_small)] #[kani::proof] #[kani::unwind(16)] fn filter_block_one_tx() { filter_block_step::<true, 1>(); }
+    #[cfg(not(fb_small))] #[kani::proof] #[kani::unwind(30)] fn filter_block_lock_only() { filter_block_step::<false, 2>(); }
+    #[cfg(not(fb_small))] #[kani::proof] #[kani::unwind(30)] fn filter_block_lock_and_type() { filter_block_step::<true, 2>(); }
 }
